@@ -2,8 +2,10 @@ use crate::engine::Property;
 
 pub mod c08;
 pub mod c09;
+pub mod c10;
+pub mod c11;
 pub mod c19;
 
 pub fn all() -> Vec<Property> {
-    vec![c08::property(), c09::property(), c19::property()]
+    vec![c08::property(), c09::property(), c10::property(), c11::property(), c19::property()]
 }
